@@ -1,47 +1,78 @@
+_LIB = ['mlog.c', 'string.c', 'util.c']     # strdup_printf / xmalloc come with mlog.c; util.c wants a time_now() (stub in the harness)
+
 CHECK = dict(
     level='model_checking',
-    parts=[dict(name='c20', src=['harness/c20_mlog.c'], workers=16,
-                # strdup_printf (used by mlog_get_line) and xmalloc come from the real librfn sources, compiled apart
-                objs=[('@REPO@/librfn/string.c', []), ('@REPO@/librfn/util.c', [])],
-                deadline=dict(quick=300, thorough=2400))],
-    rule='vx_bfs over operation histories of the real mlog.c (static log reached by #include "mlog.c") against an unbounded-'
-         'list model (64-bit message count, no ring or fold arithmetic). 722 start states: message count P in '
-         '{0,1,254..258,510..514} built by P real mlog calls, P = 2^b + {-1,0,1,255,256} for b = 9..30 (every width the counter could be narrowed to), and P = 2^31-1+j for j = -300..299 built by setting log.head = '
-         'P-300 and issuing 300 real mlog calls (ring content, slot alignment and the counter fold come from the real code). '
-         'From each start all sequences of <= D operations over {mlog with 0,1,2,3 arguments, mlog_nice, mlog_clear}; after '
-         'the start state and after every operation mlog_get_line(k) for k = -2..258 and 11 extreme k (INT_MIN..INT_MAX) '
-         'and the mlog_dump output are compared with the model. A state is distinct when (log.head, all 256 slots by format '
-         'and consumed arguments, model) differs; "distinct" counts distinct observation tuples (all returned lines + dump '
-         'text) with a hash set. Messages carry a global sequence number in their arguments, 0-argument messages one of 7 '
-         'texts.',
-    bounds=dict(quick='722 start states x all operation sequences of length <= 4',
-                thorough='722 start states x all operation sequences of length <= 6; plus one run of 2^31+600 real mlog '
-                         'calls from an empty log with no positioning, compared with the model after every call for counts '
-                         '<= 600 and >= 2^31-901 and every 2^26 calls, and required to produce, at each of the 600 '
-                         'positioned counts, the same log state and observations as the positioned construction'),
-    assumptions=['positioning shortcut: before the first fold log.head equals the number of messages logged, so writing '
-                 'P-300 into log.head reproduces a reachable counter value (premise and result are checked against 2^31+600 '
-                 'real calls in the thorough tier only; the quick tier relies on it)',
-                 'x86-64 calling convention (the three variadic arguments travel in registers), arguments are unsigned long, '
-                 'char* to constant strings, int and char; format strings are string literals',
-                 'message counts between 520 and 2^31-901 are visited only at multiples of 2^26 (thorough long run); the '
-                 'ring arithmetic depends on the count only through count mod 256 and its position relative to 256 and to '
-                 'the fold, all of which are covered',
-                 'reads (mlog_get_line, mlog_dump) are performed after every operation in a fixed order, not interleaved as '
-                 'separate operations of the search'],
+    parts=[
+        # main part: start counts 0 .. 2^26+258, count family + content family (repeated on every build variant)
+        dict(name='c20', src=['harness/c20_mlog.c'], lib=_LIB, workers=16, deadline=dict(quick=1200, thorough=3600)),
+        # fold part: start counts 2^27-257 .. 2^31+298 (quick) / 2^31+599 (thorough); every worker makes its own 2^31+ real calls
+        dict(name='c20fold', src=['harness/c20_mlog.c'], lib=_LIB, cflags=['-DC20_FOLD=1'], workers=4, tiers=('quick',),
+             deadline=dict(quick=1200)),
+        dict(name='c20foldt', src=['harness/c20_mlog.c'], lib=_LIB, cflags=['-DC20_FOLD=1'], workers=8, tiers=('thorough',),
+             deadline=dict(thorough=3600)),
+    ],
+    rule='vx_bfs over operation histories of the real mlog.c, linked as an object of its own (lib=: nothing of the harness knows '
+         'its representation; the library state is the opaque image of all its statics, part of every snapshot) against an '
+         'unbounded-list model (64-bit message count, no ring or fold arithmetic; reference text from a format walker with '
+         'properly typed arguments). Every start state is reached by REAL calls: a worker climbs a ladder of mlog calls from '
+         'an empty log once and takes an image at each start count P it owns; second-generation starts add mlog_clear and Q in '
+         '{1,255,256,257} more real calls. Start counts: every P in 0..1030 (observed), searches from {0,1,2,254..258,510..514,'
+         '766..770} and 2^b + {-257,-256,-255,-2,-1,0,1,2,254..258} for b = 9..30 (every width a counter could have), and '
+         '2^31-1+j for j = -300..299 (thorough ..600). Reads are part of the history: after the start state and after every '
+         'operation a reads pass on the live library - mlog_get_line(k) for k = -2..258 and 11 extreme k (INT_MIN..INT_MAX), '
+         'mlog_dump twice in a row, the boundary k (-1, 0, v-1, v, 255, 256) twice in a row - each compared with the model; '
+         'after every single read the image of the library statics is compared with the one before it: an unchanged image '
+         'means the read cannot influence anything later (so interleavings with it add nothing), a changed one makes that '
+         'read (mlog_dump, mlog_get_line(k) for the k classes -1,0,1,v-2..v+1,254,255,256,INT_MIN,INT_MAX) an operation of the '
+         'search from there on, at most 1 (quick) / 2 (thorough) per history. Count family: all sequences of <= D operations over {mlog, mlog_nice, '
+         'mlog_clear}, the message rotating with its sequence number through 8 shapes (0..3 arguments, %s first / third, '
+         'values >= 2^32 in every position, no trailing newline, %%). Content family: from P in {0,1,255,256,257,600} one of 161 '
+         'menu messages (17 values on both sides of 2^7,8,15,16,31,32,63,64 and INT_MIN/-1/INT_MAX in each of the three '
+         'positions; string pointers above 2^32 in each position; 0..3 arguments; empty format, newline only, no trailing '
+         'newline, %% forms; lines of 2^j-1, 2^j, 2^j+1 bytes for j = 5..16 through a %s argument and through a literal '
+         'format) through mlog and through mlog_nice, then sequences over a reduced menu of 23, mlog_clear and "the same call '
+         'again" (identical consecutive messages). mlog_nice: recording with 256 recorded is a violation, what it records '
+         'must be the message; not recording although there is room is not judged (the statement says "only while"), the '
+         'model follows what mlog_get_line(n) shows and counts it. A search ends with its first counterexample. State and transition counts differ a little between builds: the argument registers a call does not use are stored by mlog and are part of the image.',
+    bounds=dict(quick='count family: 888 start counts (236 up to 2^26+258 in the main part; 652 from 2^27-257 to 2^31+298 in the '
+                      'fold part, whose 4 workers each make 2^31+298 real calls) x all sequences of <= 5 (main) / <= 4 (fold) '
+                      'operations, plus 3548 second-generation starts x <= 2 operations; content family: 6 start counts x 322 '
+                      'first messages x all sequences of <= 2 operations (the fold part runs on the primary build only in this tier)',
+                thorough='count family: 1189 start counts (fold part up to 2^31+599, 8 workers) x all sequences of <= 8 (main) / '
+                         '<= 6 (fold) operations, plus 4752 second-generation starts x <= 4 (main) / <= 3 (fold) operations; content '
+                         'family: <= 3 operations from the counts 0 and 256, <= 2 from 1, 255, 257, 600; the fold part is repeated '
+                         'on every build variant too'),
+    assumptions=['the library is deterministic in its statics: what it keeps lives in static storage of mlog.c / string.c / '
+                 'util.c (all of it is part of every snapshot and of the purity test of the reads); state kept in heap blocks '
+                 'reachable from those statics would not be restored between branches',
+                 'x86-64 calling convention (the three variadic arguments travel in registers); arguments are unsigned long, '
+                 'int, char and char* to constant strings; formats and strings are constant data in an mmap()ed arena above 2^32',
+                 'start counts between 1030 and 2^31-301 are visited on both sides of every power of two only (and observed at '
+                 'every multiple of 2^26); a defect that damages the log at some other count is seen only if the damage '
+                 'persists to the next start count of the ladder',
+                 'mlog_nice declining to record while fewer than 256 are recorded is allowed by the statement and not judged '
+                 '(counter nice_declined_although_room_not_judged, 0 on the current sources)',
+                 'the string mlog_get_line returns is released with free() as mlog.h prescribes; a result free() rejects is '
+                 'reported as a fault of mlog_get_line',
+                 'read operations inside a history (only for reads that change the statics) are limited to the k classes named '
+                 'in the rule and to 1 (quick) / 2 (thorough) per history; the reads pass after it always covers every k'],
 )
 CHECK.update(
-    technique='explicit-state model checking: bounded-depth BFS over operation histories of the real mlog.c from 612 start '
-              'states (including both sides of the 2^31 counter fold) against an unbounded-list model, plus a 2^31+600 call '
-              'conformance run',
-    level_text='Every sequence of up to 4 (quick) / 6 (thorough) operations from {mlog x 0..3 arguments, mlog_nice, '
-               'mlog_clear} from each of 722 start states - message counts 0, 1, 254..258, 510..514, around every power of two 2^9..2^30 and every count within '
-               '300 of the 2^31-1 fold point - executed on the real mlog.c; after each operation all of mlog_get_line(-2..258 '
-               'and extreme k) and mlog_dump are compared with an unbounded list. Thorough additionally crosses the fold with '
-               '2^31+600 genuine calls and shows the positioned start states equal the genuinely reached ones.',
-    level_note='Depth-bounded (not a fixpoint). Trusted: the list model, the lazily generated bulk messages, and - in the '
-               'quick tier - the log.head positioning shortcut.',
+    technique='explicit-state model checking: bounded-depth BFS over operation histories (writes, and reads whenever they '
+              'have side effects) of the real, separately compiled mlog.c from start states reached only by real calls '
+              '(up to 2^31+ of them, across the counter fold), against an unbounded-list model',
+    level_text='Every sequence of up to 5 (quick; 8 thorough) operations from {mlog, mlog_nice, mlog_clear} from 236 start '
+               'counts up to 2^26+258 and of up to 4 (6) from 652 (953) counts from 2^27-257 to 2^31+298 (+599) - around every '
+               'power of two and every count within 300 of the 2^31-1 fold - plus second-generation starts (cleared and '
+               'refilled), each reached by genuine mlog calls only; a content family sends 161 message shapes (wide values and '
+               'string pointers in every argument position, 0..3 arguments, empty / unterminated / %% formats, lines of 31 to '
+               '65537 bytes) through mlog and mlog_nice and follows them with further messages, clears and exact repeats. '
+               'After each operation all of mlog_get_line(-2..258 and extreme k) and mlog_dump (twice) run on the live '
+               'library and are compared with an unbounded list; a read that changes any static of the library becomes an '
+               'operation of the search.',
+    level_note='Depth-bounded (not a fixpoint). Trusted: the list model and its format walker, the generated ladder messages, '
+               'and that the library keeps its state in its statics.',
     design_ref='DESIGN.md section 4, C20',
 )
 
-CHECK['variants'] = ['c20']
+CHECK['variants'] = ['c20', 'c20foldt']
